@@ -28,7 +28,19 @@ func reloadEntries(p *Program) []*ssa.Function {
 				takesState = true
 			}
 		}
-		if hasParse && hasCompile && hasRead && takesState {
+		// it hands the compiled configuration to a state-writing method of runtimeState itself
+		applies := false
+		for _, ci := range allCalls(fn, func(ci ssa.CallInstruction) bool {
+			f := ci.Common().StaticCallee()
+			return f != nil && f.Signature.Recv() != nil && namedName(f.Signature.Recv().Type()) == "runtimeState"
+		}) {
+			for g := range p.Reach(ci.Common().StaticCallee()) {
+				if len(runtimeStateStores(g)) > 0 {
+					applies = true
+				}
+			}
+		}
+		if hasParse && hasCompile && hasRead && takesState && applies {
 			out = append(out, fn)
 		}
 	}
